@@ -14,15 +14,20 @@
                          no START segment follows the SESS_TERM -- FALSE
                          unconditionally (segment size 0: the code repeats empty
                          START segments for ever), proved when the segment size
-                         in use is positive (see C04.v);
+                         in use is positive, which follows from
+                         1 <= segment_size_tx_initial and every handled SESS_INIT
+                         announcing a segment MRU >= 1 and an ASCII node id
+                         (C09_no_new_transfer_inputs; see C04.v);
    C09_unstarted_reported when a SESS_TERM is handled in session, the queue of
                          not-yet-started transfers is emptied and each of them
                          gets SigSendFinished [id; 0; "terminating"];
    C09_closed_is_final   once the socket is closed, no operation changes
                          anything but the clock.
 
-   NOT YET PROVED: the lifting of C09_unstarted_reported to whole runs (every
-   queued transfer id is still in tx_map or has a SigSendFinished in the trace). *)
+   C09_queued_never_dropped  after any run, every transfer id returned by
+                         send_bundle_data is still in the transmit map (queued,
+                         in progress or awaiting its final acknowledgement) or a
+                         SigSendFinished signal was emitted for it. *)
 From Coq Require Import List NArith Bool.
 From RecordUpdate Require Import RecordSet.
 Import ListNotations RecordSetNotations.
@@ -58,6 +63,15 @@ Theorem C09_no_new_transfer_partial : forall (c : cfg) (ops : list op),
 Proof. exact no_start_after_term_partial. Qed.
 Print Assumptions C09_no_new_transfer_partial.
 
+Theorem C09_no_new_transfer_inputs : forall (c : cfg) (ops : list op),
+  0 < c_seg_init c ->
+  Forall (fun f => match f with FMsg (MSessInit _ smru _ nid _) => 0 < smru /\ ascii nid = true | _ => True end)
+         (handled (run c ops)) ->
+  forall pre fl r post, sent (run c ops) = pre ++ FMsg (MSessTerm fl r) :: post ->
+  Forall (fun f => match f with FMsg (MXferSeg flags _ _ _) => has_start flags = false | _ => True end) post.
+Proof. exact no_start_after_term_inputs. Qed.
+Print Assumptions C09_no_new_transfer_inputs.
+
 Theorem C09_no_new_transfer_refuted :
   exists c ops pre fl r post, sent (run c ops) = pre ++ FMsg (MSessTerm fl r) :: post
     /\ ~ Forall (fun f => match f with FMsg (MXferSeg flags _ _ _) => has_start flags = false | _ => True end) post.
@@ -72,6 +86,13 @@ Theorem C09_unstarted_reported : forall (fl r : N) (s : ep), in_sess s = true ->
         ++ t2.
 Proof. exact unstarted_reported. Qed.
 Print Assumptions C09_unstarted_reported.
+
+Theorem C09_queued_never_dropped : forall (c : cfg) (ops : list op),
+  let s := run c ops in
+  forall id, In (ERet 1 (PStrNum id)) (trace s) ->
+    In id (map fst (tx_map s)) \/ exists args, In (ESig SigSendFinished (PStrNum id :: args)) (trace s).
+Proof. exact queued_never_dropped. Qed.
+Print Assumptions C09_queued_never_dropped.
 
 Theorem C09_closed_is_final : forall (s : ep) (o : op), closed s = true ->
   step s o = match o with OAdvance dt => s <| now := now s + dt |> | _ => s end.
